@@ -534,8 +534,43 @@ LABEL_SETS = [
 ]
 
 
+def scaled_label_set(rng):
+    """a label set in the '<number><prefix><unit>' form anywhere on the scale of SI prefixes the class knows (quecto .. quetta):
+    the behaviour of the float/enum pair must not depend on the magnitude of the values (no absolute tolerances)"""
+    from frappy.extparams import FloatEnumParam
+    table = FloatEnumParam.PREFIXES
+    prefixes = sorted((p for p in table if p != 'µ'), key=lambda p: table[p])
+    unit = rng.choice(['A', 'V', 'W', 'Hz', 'T', 'Ohm'])
+    start = rng.randrange(len(prefixes))
+    window = prefixes[start:start + rng.randint(1, 3)]
+    numbers = ['1', '2', '5', '10', '20', '50', '100', '200', '500', '2.5', '.5', '1.5']
+    n = rng.randint(1, 6)
+    labels = []
+    while len(labels) < n:
+        lab = rng.choice(numbers) + rng.choice(['', ' ']) + rng.choice(window) + unit
+        if lab not in labels:
+            labels.append(lab)
+    if rng.random() < 0.6:       # usual: ascending (the values as the class itself derives them from the labels)
+        vd = FloatEnumParam('g', labels, unit).valuedict
+        labels = [lab for _, lab in sorted(enumerate(labels), key=lambda e: vd[e[0]])]
+    return labels, unit, False
+
+
+def near_value(rng, v):
+    """a float next to v: one ulp, a relative offset of 2^-k, an absolute offset of 10^-e"""
+    import math
+    s = rng.choice([-1, 1])
+    r = rng.random()
+    if r < 0.3:
+        return math.nextafter(v, s * math.inf)
+    if r < 0.7:
+        return v * (1 + s * 2.0 ** -rng.choice([20, 30, 40, 50]))
+    return v + s * 10.0 ** -rng.choice([6, 9, 10, 12, 15])
+
+
 def gen_floatenum(rng, big):
-    labels, unit, dyadic = rng.choice(LABEL_SETS)
+    scaled = rng.random() < 0.3
+    labels, unit, dyadic = scaled_label_set(rng) if scaled else rng.choice(LABEL_SETS)
     labels = json.loads(json.dumps(labels))
     hasR, hasW = rng.random() < 0.5, rng.random() < 0.6
     # the values, to draw requests from (a throw-away class: the generator may look, the verdict is Lean's)
@@ -550,10 +585,17 @@ def gen_floatenum(rng, big):
         d = sorted(abs(Fraction(v) - Fraction(x)) for v in vals)
         return len(d) > 1 and d[1] != d[0] and (d[1] - d[0]) < Fraction(1, 10 ** 6) * max(d[1], Fraction(1, 10 ** 30))
 
-    def xval():
+    def xval(for_write=False):
         r = rng.random()
-        if r < 0.2:
+        if r < 0.15:
             return rng.choice(vals)
+        if r < 0.3:
+            # right next to an allowed value (float comparisons must be exact: equality and "closest").  For a client
+            # write only inside the range: FloatRange.validate clamps values outside by less than the resolution (not modelled)
+            x = near_value(rng, rng.choice(vals))
+            if for_write and not lo <= x <= hi:
+                return rng.choice(vals)
+            return x
         if r < 0.45 and len(vals) > 1:
             i = rng.randrange(len(vals) - 1)
             a, b = vals[i], vals[i + 1]
@@ -565,7 +607,7 @@ def gen_floatenum(rng, big):
                 return lo + (hi - lo) * rng.randrange(0, 65) / 64
             return lo + (hi - lo) * rng.random()
         if r < 0.9:
-            return rng.choice([lo - 1 - abs(lo), hi + 1 + abs(hi), hi * 2 + 3, lo - 100.0])
+            return rng.choice([lo - 1 - abs(lo), hi + 1 + abs(hi), hi + 3 + 2 * abs(hi), lo - 100.0 - abs(lo)])      # clearly outside, at every scale
         return rng.choice([lo, hi])
 
     def widx(i):
@@ -587,9 +629,9 @@ def gen_floatenum(rng, big):
         if r >= 0.9 and not with_assign_float:
             r = rng.random() * 0.9
         if r < 0.4:
-            x = xval()
+            x = xval(True)
             while not dyadic and near_tie(x):
-                x = xval()
+                x = xval(True)
             # the driver mostly takes the selected index over
             w = rng.choice(['none', 'none', 'none', fail_tag(rng), rng.choice(idxs)])
             ops.append(['writeFloat', x, w, via])
@@ -604,8 +646,10 @@ def gen_floatenum(rng, big):
             ops.append(['assignIdx', rng.choice(idxs + [max(idxs) + 1] * (rng.random() < 0.15)), 'drv'])
         else:
             x = xval()
+            while not dyadic and near_tie(x):
+                x = xval()
             ops.append(['assignFloat', x, 'drv'])
-    return {'kind': 'floatenum', 'labels': labels, 'unit': unit, 'hasR': hasR, 'hasW': hasW, 'ops': ops}
+    return {'kind': 'floatenum', 'labels': labels, 'unit': unit, 'scaled': scaled, 'hasR': hasR, 'hasW': hasW, 'ops': ops}
 
 
 def sig_floatenum(case, bad, trace):
@@ -1144,6 +1188,8 @@ def _run_chunk(ctx, res, cases, offset, ncorpus, shrunk):
             res.count(f'{kind}.via-{op[-1]}')
         if kind == 'struct':
             res.count('struct.layout-combined' if case['combined'] else 'struct.layout-permember')
+        if kind == 'floatenum':
+            res.count('floatenum.labels-si-scaled' if case.get('scaled') else 'floatenum.labels-catalogue')
         if nontrivial(case, trace):
             res.nontriv(case)
         if len(res.samples) < 6 and j >= ncorpus and len(case['ops']) <= 5 and nontrivial(case, trace) \
